@@ -1,4 +1,140 @@
+(* C11 — key joins propagate selections by key membership, in all four join shapes.
+   Statements only; every proof is `exact Lemmas.<name>`.
+
+   Reading guide.  [veq a b = true] is equality by value of two key cells, decoded from their stored
+   bytes (ints exactly, strings up to padding, floats by bit pattern with +0.0 = -0.0, an int meets a
+   float through the int -> float64 conversion).  [selected m i] = element i of mask m is True.
+   [join_mask left (select mr right) c1 c2] is what get_mask_with_key_joins computes for this dataset's
+   (viewed) rows [left], the other dataset's rows [right], the mask [mr] the other dataset answered,
+   and the join's component tuples c1 (own) / c2 (other).  [get_mask fuel S flags d view] is
+   Data.get_mask on dataset d of the system S (tables, Data._key_joins dicts, the selection's own
+   evaluation per dataset) with the datasets in [flags] marked _recursing. *)
 From Coq Require Import ZArith List Bool.
-From GV Require Import C11.Lemmas.
-Theorem placeholder : True. Proof. exact Lemmas.placeholder. Qed.
-Print Assumptions placeholder.
+Import ListNotations.
+From GV Require Import C11.Model C11.Lemmas.
+
+(* ---- the four shapes: a row is selected iff its key equals by value a key of a row selected on the other side *)
+Theorem join_1_1 : forall (left right : table) (mr : list bool) (a b : nat),
+  exists m, join_mask left (select mr right) [a] [b] = Some m /\ length m = length left /\
+    forall i, selected m i <->
+      exists r j r', nth_error left i = Some r /\ selected mr j /\ nth_error right j = Some r' /\
+                     veq (key r a) (key r' b) = true.
+Proof. exact Lemmas.join_1_1. Qed.
+Print Assumptions join_1_1.
+
+(* n-n: the tuple of key values must match, whatever the storage dtypes / string widths of the columns
+   ([nn_domain]: the compared cells are well-formed numpy items, number with number or string with string) *)
+Theorem join_n_n : forall (left right : table) (mr : list bool) (c1 c2 : list nat),
+  length c1 = length c2 -> (1 < length c1)%nat -> nn_domain left right c1 c2 ->
+  exists m, join_mask left (select mr right) c1 c2 = Some m /\ length m = length left /\
+    forall i, selected m i <->
+      exists r j r', nth_error left i = Some r /\ selected mr j /\ nth_error right j = Some r' /\
+                     Forall2 (fun x y => veq (key r x) (key r' y) = true) c1 c2.
+Proof. exact Lemmas.join_n_n. Qed.
+Print Assumptions join_n_n.
+
+Theorem join_1_n : forall (left right : table) (mr : list bool) (a : nat) (c2 : list nat),
+  length c2 <> 1%nat ->
+  exists m, join_mask left (select mr right) [a] c2 = Some m /\ length m = length left /\
+    forall i, selected m i <->
+      exists r j r' y, nth_error left i = Some r /\ selected mr j /\ nth_error right j = Some r' /\
+                       In y c2 /\ veq (key r a) (key r' y) = true.
+Proof. exact Lemmas.join_1_n. Qed.
+Print Assumptions join_1_n.
+
+Theorem join_n_1 : forall (left right : table) (mr : list bool) (c1 : list nat) (b : nat),
+  length c1 <> 1%nat ->
+  exists m, join_mask left (select mr right) c1 [b] = Some m /\ length m = length left /\
+    forall i, selected m i <->
+      exists r j r' x, nth_error left i = Some r /\ selected mr j /\ nth_error right j = Some r' /\
+                       In x c1 /\ veq (key r x) (key r' b) = true.
+Proof. exact Lemmas.join_n_1. Qed.
+Print Assumptions join_n_1.
+
+(* ---- the byte-concatenation trick of concatenate_arrays *)
+(* with equal column widths on both sides the S<total> items are equal (up to trailing NULs, as numpy
+   compares them) iff the column contents are equal ... *)
+Theorem concat_key_injective : forall ka kb, same_widths ka kb ->
+  (concat_key ka = concat_key kb <-> map cbytes ka = map cbytes kb).
+Proof. exact Lemmas.concat_key_injective. Qed.
+Print Assumptions concat_key_injective.
+
+(* ... and without that agreement it is neither sound nor complete *)
+Theorem concat_key_needs_widths :
+  (exists ka kb, length ka = length kb /\ concat_key ka = concat_key kb /\ map cbytes ka <> map cbytes kb) /\
+  (exists ka kb, Forall2 (fun a b => veq a b = true) ka kb /\ concat_key ka <> concat_key kb).
+Proof. exact Lemmas.concat_key_needs_widths. Qed.
+Print Assumptions concat_key_needs_widths.
+
+(* F-C11 (glue-core @56f48f0, before the repair): the n-n law fails for the raw byte comparison when the
+   dtypes differ — equal tuples that are not matched, and a match between different tuples *)
+Theorem join_n_n_width_refuted :
+  (exists left right mr c1 c2,
+     length c1 = length c2 /\ (1 < length c1)%nat /\ nn_domain left right c1 c2 /\
+     exists r r', nth_error left 0 = Some r /\ nth_error right 0 = Some r' /\ selected mr 0 /\
+       Forall2 (fun x y => veq (key r x) (key r' y) = true) c1 c2 /\
+       ~ selected (mask_nn_raw left (select mr right) c1 c2) 0) /\
+  (exists left right mr c1 c2,
+     length c1 = length c2 /\ (1 < length c1)%nat /\ nn_domain left right c1 c2 /\
+     selected (mask_nn_raw left (select mr right) c1 c2) 0 /\
+     forall r j r', nth_error left 0 = Some r -> selected mr j -> nth_error right j = Some r' ->
+       ~ Forall2 (fun x y => veq (key r x) (key r' y) = true) c1 c2).
+Proof. exact Lemmas.join_n_n_width_refuted. Qed.
+Print Assumptions join_n_n_width_refuted.
+
+(* ---- the recursion over the join graph *)
+(* one step: the first join (dict order) whose far side is not flagged and does not answer
+   Incompatible decides, and the answer is the join of this dataset's viewed rows with the rows selected there *)
+Theorem join_propagates : forall f S F d view pre o c1 c2 rest mr,
+  own_of S d = None ->
+  joins_of S d = pre ++ (o, (c1, c2)) :: rest ->
+  (forall j, In j pre -> memb (fst j) F = true \/ get_mask f S (d :: F) (fst j) None = Incompatible) ->
+  memb o F = false ->
+  get_mask f S (d :: F) o None = Mask mr ->
+  get_mask (Datatypes.S f) S F d view =
+  out_of (join_mask (apply_view [] view (rows_of S d)) (select mr (rows_of S o)) c1 c2).
+Proof. exact Lemmas.join_propagates. Qed.
+Print Assumptions join_propagates.
+
+(* on every join graph (cycles and self-joins included) the recursion ends: the fuel the model runs with
+   is never exhausted and more fuel changes nothing; the depth is at most |datasets| + 1 frames when no
+   dataset is joined with itself (2|datasets| + 2 otherwise); and when no dataset reachable through joins
+   can evaluate the selection the answer is Incompatible *)
+Theorem join_terminates : forall S, (length (joins S) <= length (tables S))%nat -> forall d view,
+  get_mask_top S d view <> OutOfFuel /\
+  (forall fuel, (fuel_for S <= fuel)%nat -> get_mask fuel S [] d view = get_mask_top S d view) /\
+  ((forall e, reach S d e -> own_of S e = None) -> get_mask_top S d view = Incompatible) /\
+  (no_self_join S -> forall fuel, (length (tables S) + 1 <= fuel)%nat -> get_mask fuel S [] d view = get_mask_top S d view).
+Proof. exact Lemmas.join_terminates. Qed.
+Print Assumptions join_terminates.
+
+(* all views: asking through a view = asking for the whole dataset and looking through the view *)
+Theorem join_view : forall fuel S F d idx,
+  (forall i, In i idx -> (i < length (rows_of S d))%nat) ->
+  get_mask fuel S F d (Some idx) = map_outcome (gather false idx) (get_mask fuel S F d None).
+Proof. exact Lemmas.join_view. Qed.
+Print Assumptions join_view.
+
+(* both directions: join_on_key registers the join on both datasets (cids swapped), and a selection that
+   only the other dataset can evaluate arrives here as the join, whichever of the two is asked *)
+Theorem join_both_directions : forall (ts : list table) a b ca cb js,
+  a <> b -> (a < length ts)%nat -> (b < length ts)%nat ->
+  join_on_key (map (fun _ => []) ts) a b ca cb = (js, 0%Z) ->
+  (forall ow view mb, nth a ow None = None -> nth b ow None = Some mb ->
+     get_mask_top (Sys ts js ow) a view =
+     out_of (join_mask (apply_view [] view (nth a ts [])) (select mb (nth b ts [])) ca cb)) /\
+  (forall ow view ma, nth b ow None = None -> nth a ow None = Some ma ->
+     get_mask_top (Sys ts js ow) b view =
+     out_of (join_mask (apply_view [] view (nth b ts [])) (select ma (nth a ts [])) cb ca)).
+Proof. exact Lemmas.join_both_directions. Qed.
+Print Assumptions join_both_directions.
+
+(* chains: along d0 - d1 - ... - dk where only dk can evaluate, d0 receives the composition of the joins *)
+Theorem join_chain : forall S path prev F fuel,
+  chain_ok S prev path -> NoDup (map fst path) ->
+  (forall p, prev = Some p -> memb p F = true) ->
+  (forall x, In x (map fst path) -> memb x F = false) ->
+  (length path <= fuel)%nat ->
+  get_mask fuel S F (hd 0%nat (map fst path)) None = chain_out S path.
+Proof. exact Lemmas.join_chain. Qed.
+Print Assumptions join_chain.
